@@ -155,7 +155,7 @@ func stressSubmit(l *goz.Limiter, i, spin, kind int, panics bool, runs []atomic.
 }
 
 func stressExtra(ctx *core.Ctx) (int, string, []core.ExtraFailure) {
-	rounds, tasks := 60, 400
+	rounds, tasks := 40, 400
 	if ctx.Tier == "thorough" {
 		rounds, tasks = 800, 1000
 	}
